@@ -71,11 +71,13 @@ def run_content(chk, F, tier):
     import ivl
     from ivl import AI, Agg, Ref, Frame, Slice, Opaque, mk_variant
     chk.rule("B6.content", floor=6, doc=run_content.__doc__.strip().replace("\n    ", " "))
+    chk.rule("B6.failure", floor=4, doc="the same calls with the j-th stream operation failing, for every j: the call returns an error (never Ok with a byte count), and the stream is not used after the failure")
     top = 40 if tier == "thorough" else 17
     for kind, e, b in io_bodies(F):
         probs = []
         undecided = []
         n_ok = 0
+        fprobs, fundecided, n_fail = [], [], 0
         for L in range(0, top + 1):
             log = []
 
@@ -131,7 +133,34 @@ def run_content(chk, F, tier):
                 if not good:
                     probs.append("length %d: returns %r and stores %s for the stream bytes %s" % (L, r, buf, stream))
             n_ok += 1 if good else 0
+            # the same call with the j-th stream operation failing: the failure is reported, never a byte count
+            for j in range(len(log)):
+                cnt = [0]
+
+                def failing(it, name, args, fargs, fr, t, cnt=cnt, j=j):
+                    cnt[0] += 1
+                    if cnt[0] - 1 == j:
+                        return mk_variant("std::result::Result", "Err", [Opaque("the stream's error")])
+                    if cnt[0] - 1 > j:
+                        raise ivl.Unsupported("stream used after a failure")
+                    w = args[2] if kind == "write" else AI("u64", 0, 0)
+                    return mk_variant("std::result::Result", "Ok", [w])
+                mkerr = lambda it, name, args, fargs, fr, t: Opaque("io::Error")
+                it2 = ivl.Interp(F, 0, 0, {"traits::bits::BitWrite::write_bits": failing, "traits::bits::BitRead::read_bits": failing,
+                                           "std::io::Error::new": mkerr, "std::io::Error::other": mkerr})
+                st2 = Frame({"path": "buf"}, {})
+                st2.locals[0] = Agg("array", None, None, None, [AI("u8", i, i) for i in range(L)])
+                try:
+                    r2 = it2.call_body(b, [Ref(sh, 0, ()), Slice(Ref(st2, 0, ()), 0, L)], env, 0)
+                except (ivl.Unsupported, ivl.Undecided, ivl.Panic) as ex:
+                    fundecided.append("length %d, operation %d fails: %s" % (L, j, ex))
+                    continue
+                n_fail += 1
+                if not (isinstance(r2, Agg) and r2.variant == "Err"):
+                    fprobs.append("length %d: stream operation %d fails and the call returns %r" % (L, j, r2))
         key = "%s|%s" % ((b.get("impl_self") or "")[:60], kind)
+        chk.expect("B6.failure", key, not fprobs and (n_fail >= 10 or fundecided), "%s: %s" % (b["path"], "; ".join(fprobs[:3]) or "no failing run could be interpreted"),
+                   detail={"problems": fprobs[:10]}, sample={"fn": b["path"], "failing_runs": n_fail, "not_decided": fundecided[:2]})
         chk.expect("B6.content", key, not probs, "%s: %s" % (b["path"], "; ".join(probs[:3])), detail={"problems": probs[:10]},
                    sample={"fn": b["path"], "lengths": "0..=%d" % top, "decided": n_ok, "not_decided": undecided[:2]})
 
